@@ -26,6 +26,8 @@ REQUIRED = ["Sqfs.C15.ostream_transparent", "Sqfs.C15.ostream_transparent_single
             "Sqfs.C15.truncated_is_error_stream", "Sqfs.C15.truncated_is_error", "Sqfs.C15.corrupt_is_error",
             "Sqfs.C15.process_data_meets_contract", "Sqfs.C15.zstd_istream_transparent", "Sqfs.C15.zstd_truncated_is_error",
             "Sqfs.C15.backend_ostream_transparent", "Sqfs.C15.backend_istream_transparent", "Sqfs.C15.backend_truncated_is_error",
+            "Sqfs.C15.backend_corrupt_is_error", "Sqfs.C15.zstd_corrupt_is_error", "Sqfs.C15.toy_error_conventions_satisfiable",
+            "Sqfs.C15.toy_dead_example",
             "Sqfs.C15.toy_library_meets_convention", "Sqfs.C15.toy_encoder_meets_contract", "Sqfs.C15.toy_decoder_meets_contract",
             "Sqfs.C15.toy_decode_encode", "Sqfs.C15.probe_spec"]
 CODECS = ["gzip", "xz", "bzip2", "zstd"]
